@@ -570,7 +570,7 @@ def row_order(repo, fi: FunctionInfo, e: ast.expr, defs: Dict[str, ast.expr], de
                 return row_order(repo, fi, idx, defs, depth + 1)
             return UNKNOWN, "DataFrame without index"
         if name in ("set", "frozenset"):
-            return UNKNOWN, "set order"
+            return SORTED, "iteration order of a set: hash order (changes with PYTHONHASHSEED for strings), never the feature's order"
     return UNKNOWN, short(e, 50)
 
 
